@@ -280,6 +280,14 @@ impl<F: Field, EF: ExtensionField<F>, LG: LookupProtocol> RecursiveAir<F, EF, LG
     fn opens_trace_next(&self) -> bool {
         false
     }
+
+    fn opens_preprocessed_next(&self) -> bool {
+        false
+    }
+
+    fn preprocessed_width(&self) -> usize {
+        0
+    }
 }
 
 /// Preprocessed prover data for a fixed verification circuit shape, produced offline by
